@@ -7,7 +7,8 @@ under which output depends only on input and options -
         values may flow,
   R12.2 no address-valued data reaches an output or a hash,
   R12.3 no hash-table iteration outside the table implementation,
-  R12.4 numbering sources are static counters changed only by ++.
+  R12.4 numbering sources are static counters changed only by ++,
+  R12.5 (lint) chibicc's own sources avoid constructs that known findings say chibicc miscompiles.
 Every scanner is also run over /verif/canaries/c12_nondeterminism.c on every run; a scanner that
 no longer flags its canary makes the check ANALYSIS-BROKEN.
 """
@@ -77,7 +78,7 @@ def scan_sources(u):
             if cal in ALLOW and fname not in ALLOW[cal]:
                 yield (fname, 'calls-%s' % cal, c,
                        '%s() is called in %s: its value differs from run to run (process, time, environment or file-system state), and only %s may use it'
-                       % (cal, fname, ', '.join(ALLOW[cal]) or 'nobody'))
+                       % (cal, fname, ', '.join(ALLOW[cal]) or 'no function of the compiler'))
         for n in fd.walk():
             if n.kind == 'MemberExpr' and (n.name or '').startswith('st_'):
                 base = n.inner[0] if n.inner else None
@@ -223,6 +224,58 @@ def scan_counters(u):
             yield (fname, v.name, v, {'bad': bad, 'incs': incs, 'init_const': init_const})
 
 
+SUBINT = ('char', 'signed char', 'unsigned char', 'short', 'unsigned short', '_Bool', 'bool')
+U64 = ('unsigned long', 'unsigned long long', 'size_t', 'uint64_t', 'uintptr_t')
+
+
+# lint item -> substrings of the known-finding keys that keep it alive (any alternative, all substrings)
+SELFAPP_NEEDS_PID = ('C02', 'C20')
+SELFAPP_NEEDS = {
+    'fp-to-u64': [('->ulong:', 'signed-64-bit-conversion')],
+    'u64-to-float': [('ulong->float:',)],
+    'discarded-long-double': [('ND_EXPR_STMT', 'ld=')],
+    'long-double-assignment-value-used': [('ND_ASSIGN/node=ld',)],
+}
+
+
+def _des(n):
+    return (n.dtype or n.type or '').replace('const ', '').replace('volatile ', '').strip()
+
+
+def scan_selfapp(u):
+    """R12.5 constructs in chibicc's own sources that a known finding says chibicc miscompiles"""
+    for fname, fd in u.functions.items():
+        for n in fd.walk():
+            if n.kind in ('ImplicitCastExpr', 'CStyleCastExpr') and n.cast_kind == 'FloatingToIntegral' and n.inner:
+                src, dst = _des(n.inner[0]), _des(n)
+                if dst in U64:
+                    yield (fname, 'fp-to-u64', n, '%s converts %s to %s (%s): chibicc converts through a signed 64-bit conversion, values >= 2^63 come out wrong (known C02 finding), so the self-compiled compiler can differ here' % (fname, src, dst, n.src()))
+            if n.kind in ('ImplicitCastExpr', 'CStyleCastExpr') and n.cast_kind == 'IntegralToFloating' and n.inner:
+                src, dst = _des(n.inner[0]), _des(n)
+                if src in U64 and dst == 'float':
+                    yield (fname, 'u64-to-float', n, '%s converts %s to float (%s): chibicc converts through the signed 64-bit form, values >= 2^63 come out negative (known C02 finding)' % (fname, src, n.src()))
+            elif n.kind in ('CompoundStmt', 'IfStmt', 'ForStmt', 'WhileStmt', 'DoStmt', 'LabelStmt', 'CaseStmt', 'DefaultStmt'):
+                # expression statements: children of statement nodes that are expressions
+                for c in n.inner:
+                    if c.kind in ('CallExpr', 'BinaryOperator', 'UnaryOperator', 'ConditionalOperator', 'ImplicitCastExpr', 'ParenExpr', 'CStyleCastExpr') and _des(c) == 'long double':
+                        if n.kind in ('IfStmt', 'WhileStmt') and c is n.inner[0]:
+                            continue    # condition, not a discarded value
+                        if n.kind == 'DoStmt' and c is n.inner[-1]:
+                            continue
+                        if n.kind == 'ForStmt' and c is not n.inner[-1] and c.kind != 'CallExpr' and False:
+                            continue
+                        top = c.strip()
+                        if top.kind == 'BinaryOperator' and top.opcode == '=':
+                            continue    # a long double assignment statement is balanced (the assignment pops, the statement does not)
+                        yield (fname, 'discarded-long-double', c, '%s discards a long double value (%s): chibicc leaves it on the x87 stack (known C20 finding), later long double results of the self-compiled compiler become NaN' % (fname, c.src()))
+            if n.kind == 'BinaryOperator' and n.opcode == '=' and _des(n) == 'long double':
+                par = n.parent
+                while par is not None and par.kind in ('ParenExpr',):
+                    par = par.parent
+                if par is not None and par.kind not in ('CompoundStmt', 'IfStmt', 'ForStmt', 'WhileStmt', 'DoStmt', 'LabelStmt', 'CaseStmt', 'DefaultStmt', 'SwitchStmt'):
+                    yield (fname, 'long-double-assignment-value-used', n, '%s uses the value of a long double assignment (%s): chibicc leaves no value behind for it (known C20 finding: `a = b = c` stores garbage)' % (fname, n.src()))
+
+
 # --------------------------------------------------------------------- canary ---
 # function in the canary -> (rule, scanner name, construct prefix that must be reported)
 CANARY_EXPECT = [
@@ -242,8 +295,13 @@ CANARY_EXPECT = [
     ('bad_bucket_walk', 'R12.3', 'buckets', 'touches-buckets'),
     ('bad_counter', 'R12.4', 'counters', 'id'),
     ('bad_counter_reset', 'R12.4', 'counters', 'n'),
+    ('bad_self_fp_to_u64', 'R12.5', 'selfapp', 'fp-to-u64'),
+    ('bad_self_u64_to_float', 'R12.5', 'selfapp', 'u64-to-float'),
+    ('bad_self_discard', 'R12.5', 'selfapp', 'discarded-long-double'),
+    ('bad_self_chain', 'R12.5', 'selfapp', 'long-double-assignment-value-used'),
 ]
-CANARY_SILENT = ('good_counter', 'good_print', 'file_exists')
+
+CANARY_SILENT = ('good_counter', 'good_print', 'file_exists', 'good_ld_assign')
 
 
 def load_canary(P):
@@ -275,6 +333,7 @@ def run_canary(P, rep):
         'ptr2int': [(f, c) for (f, c, n, m) in scan_ptr2int(cu)],
         'buckets': [(f, c) for (f, c, n, m) in scan_buckets(cu)],
         'counters': [(f, c) for (f, c, n, m) in scan_counters(cu) if counter_bad(m)],
+        'selfapp': [(f, c) for (f, c, n, m) in scan_selfapp(cu)],
     }
     for (fn, rule, sc, construct) in CANARY_EXPECT:
         if (fn, construct) in got[sc]:
@@ -285,7 +344,7 @@ def run_canary(P, rep):
     for sc, lst in got.items():
         for (f, c) in lst:
             if f in CANARY_SILENT:
-                rep.undecided('R12.1' if sc in ('sources', 'time_flow') else ('R12.2' if sc in ('format', 'ptr2int') else ('R12.3' if sc == 'buckets' else 'R12.4')),
+                rep.undecided('R12.1' if sc in ('sources', 'time_flow') else ('R12.2' if sc in ('format', 'ptr2int') else ('R12.3' if sc == 'buckets' else ('R12.5' if sc == 'selfapp' else 'R12.4'))),
                               'canaries/c12_nondeterminism.c:%s:false-alarm-%s' % (f, c), 'the %s scanner flags the benign canary function %s (%s)' % (sc, f, c))
 
 
@@ -300,9 +359,10 @@ def run(P, rep, tier):
                         'pointer comparisons and pointer differences are within one object (not checked)',
                         'uninitialised memory is not read (not checked here)']
     rep.rule('R12.1', 'time / pid / random / environment / file-metadata / temp-name sources are called only by their allow-listed function, and the time value reaches only __DATE__/__TIME__ (and __TIMESTAMP__ through its one builtin)', floor=14)
-    rep.rule('R12.2', 'no %p and no pointer for an integer conversion in any printf-like call; pointer->integer conversions only in the allow-listed test code', floor=5)
-    rep.rule('R12.3', 'HashMap.buckets is touched only by functions of hashmap.c, none of which produces output', floor=4)
+    rep.rule('R12.2', 'no %p and no pointer for an integer conversion in any printf-like call; pointer->integer conversions only in the allow-listed test code', floor=10)
+    rep.rule('R12.3', 'HashMap.buckets is touched only by functions of hashmap.c, none of which produces output', floor=6)
     rep.rule('R12.4', 'every function-local static integer (label / name / __COUNTER__ / file numbering) has a constant initial value and is changed only by ++', floor=6)
+    rep.rule('R12.5', 'self-application lint: chibicc\'s own units do not contain constructs that a known finding says chibicc miscompiles (fp -> unsigned 64-bit, unsigned 64-bit -> float, discarded long double value, value of a long double assignment); an item retires when its finding is no longer listed', floor=13)
     run_canary(P, rep)
     cg = L.CallGraph(P)
     units = [P.unit(n) for n in P.unit_names]
@@ -315,6 +375,12 @@ def run(P, rep, tier):
                 if cal in ALLOW and fname in ALLOW[cal]:
                     allowed_seen.setdefault((u.name, fname), set()).add(cal)
         for (fname, construct, node, msg) in scan_sources(u):
+            src = construct[6:] if construct.startswith('calls-') else None
+            gone = [a for a in ALLOW.get(src, ()) if a not in cg.defs] if src else ([] if 'timestamp_macro' in cg.defs else ['timestamp_macro'])
+            if gone:
+                rep.undecided('R12.1', '%s:%s:%s' % (u.name, fname, construct),
+                              'allow-listed function %s vanished while %s %s: cannot tell a rename from a new use' % ('/'.join(gone), fname, construct.replace('-', ' ')), where='%s:%d' % (u.name, node.line))
+                continue
             rep.ob('R12.1', '%s:%s:%s' % (u.name, fname, construct), False, msg + ' [call path: %s]' % cg.witness(fname), where='%s:%d' % (u.name, node.line))
     for (un, fname), cals in sorted(allowed_seen.items()):
         rep.ob('R12.1', '%s:%s:allowed-source(%s)' % (un, fname, ','.join(sorted(cals))), True, '')
@@ -327,9 +393,8 @@ def run(P, rep, tier):
             if construct == '#tainted':
                 if msg == 0:
                     rep.undecided('R12.1', '%s:init_macros:time-flow' % u.name, 'no local of init_macros receives the time value: flow not recognised')
-                else:
-                    rep.ob('R12.1', '%s:init_macros:time-flows-only-to-date-and-time-macros' % u.name,
-                           not any(c2 != '#tainted' for (_, c2, _, _) in scan_time_flow(u)), 'see the individual findings', where='%s:%d' % (u.name, node.line))
+                elif not any(c2 != '#tainted' for (_, c2, _, _) in scan_time_flow(u)):
+                    rep.ob('R12.1', '%s:init_macros:time-flows-only-to-date-and-time-macros' % u.name, True, '', where='%s:%d' % (u.name, node.line))
                 continue
             rep.ob('R12.1', '%s:%s:%s' % (u.name, fname, construct), False, msg, where='%s:%d' % (u.name, node.line))
     # the builtin that reads file metadata is registered for __TIMESTAMP__ only and never called directly
@@ -378,7 +443,8 @@ def run(P, rep, tier):
         flagged = list(scan_format(u))
         for (fname, construct, node, msg) in flagged:
             rep.ob('R12.2', '%s:%s:%s' % (u.name, fname, construct), False, msg, where='%s:%d' % (u.name, node.line))
-        rep.ob('R12.2', '%s:format-arguments-carry-no-address' % u.name, not flagged, 'see the individual findings')
+        if not flagged:
+            rep.ob('R12.2', '%s:format-arguments-carry-no-address' % u.name, True, '')
         for (fname, construct, node, msg) in scan_ptr2int(u):
             ok = (u.name, fname) in PTR2INT_ALLOWED
             rep.ob('R12.2', '%s:%s:%s' % (u.name, fname, construct if not ok else 'pointer-to-integer-in-test-code'), ok, msg, where='%s:%d' % (u.name, node.line))
@@ -412,6 +478,16 @@ def run(P, rep, tier):
             if inside:
                 rep.ob('R12.3', '%s:%s:%s' % (u.name, fname, 'bucket-walker-is-silent' if not info['prints'] else 'bucket-walker-prints'), not info['prints'],
                        '%s touches the bucket array and produces output (%s): table order becomes visible' % (fname, ', '.join(info['prints'])), where='%s:%d' % (u.name, node.line))
+    # ---------------- R12.5  (an item is live only while the corresponding finding is still listed as open)
+    open_keys = [k for (pid, k) in rep.known if pid in SELFAPP_NEEDS_PID]
+    live = set(item for item, pats in SELFAPP_NEEDS.items() if any(all(p in k for p in pat) for k in open_keys for pat in pats))
+    rep.extra['self_application_items'] = {'live': sorted(live), 'retired (finding no longer listed)': sorted(set(SELFAPP_NEEDS) - live)}
+    for u in units:
+        hits = [h for h in scan_selfapp(u) if h[1] in live]
+        for (fname, construct, node, msg) in hits:
+            rep.ob('R12.5', '%s:%s:%s' % (u.name, fname, construct), False, msg, where='%s:%d' % (u.name, node.line))
+        if not hits:
+            rep.ob('R12.5', '%s:no-known-miscompiled-construct' % u.name, True, '')
     # ---------------- R12.4
     for u in units:
         found = {}
